@@ -9,9 +9,21 @@ PROP = {
              "harness/core/internal/protocol/c04_framing_test.go"], "^TestVerifC04",
             ["roundtrip", "writers", "peer-frames", "reject", "server-path"], race=False,
             timeout_quick=600, timeout_thorough=3600),
+        job("paths", "core", "./internal/integration_tests/", "integration_tests",
+            ["harness/core/internal/integration_tests/vfnet_test.go",
+             "harness/core/internal/integration_tests/c04_paths_test.go"], "^TestVerifC04",
+            ["server-path-e2e", "client-fastopen-e2e"], race=False, timeout_quick=300, timeout_thorough=900),
     ],
+    "parallel": 2,
     "min_events": 50000,
-    "rule": ("Every case is a byte stream (frame [+ trailing tunnel payload]) handed to the real ReadTCPRequest/"
+    "rule": ("[paths job, call sites in the running system: real server+raw client / real fast-open client on simnet in a "
+             "bubble] server-path-e2e: 0x401 frame type in 2/4/8-byte varints x address lengths at the varint/limit "
+             "boundaries x every admissible width of the address-length field, random padding length/width, payload "
+             "0/1/17/4000 bytes in the same write as the frame or later; the outbound must be asked for exactly the "
+             "address, the response must parse OK and the echoed payload must be unshifted. client-fastopen-e2e: dial "
+             "held on the server while 0..2 client Reads time out, then released (success with a greeting of 1/9/700 "
+             "bytes, or failure with a message): the next Read returns exactly the target's bytes / the dial error. "
+             "[proto job] Every case is a byte stream (frame [+ trailing tunnel payload]) handed to the real ReadTCPRequest/"
              "ReadTCPResponse through a reader that implements only io.Reader, serves a scripted chunking into "
              "non-empty reads and counts what was requested and delivered; a reference decoder written from "
              "PROTOCOL.md/RFC 9000 says what must happen (accept with this address/status/message and this frame "
